@@ -57,6 +57,9 @@ def main(argv=None):
     texts.append("states(a=1,y=2,z=3)\nda_dt = y + z\ndy_dt = y\ndz_dt = z\n")
     texts.append("states(V=1, f=0.5, F=2)\nparameters(R=8, r=3)\ni = F*f + R*r\ndV_dt = i - V\ndf_dt = F - f\ndF_dt = r*f - R*F\n")
     texts.append("states(V=1, f=0.5, F=2)\ni = F*f\nu = F + 1\nw = f + 1\ndV_dt = i + u + w - V\ndf_dt = w - f\ndF_dt = u - F\n")
+    # a sibling of the second text: the same names and, for every assignment, the same set of names read, but other formulas
+    # (what a process computed for one model must not leak into the next model it loads)
+    texts.append("states(V=1, f=0.5, F=2)\nparameters(R=8, r=3)\ni = F*f - R*r\ndV_dt = i*V\ndf_dt = F*f\ndF_dt = r*f + R*F\n")
     # models whose names come in pairs that differ only in case
     saved = list(lang.NAME_POOL)
     lang.NAME_POOL[:] = ["F", "f", "R", "r", "K", "k", "V", "v", "G", "g", "M", "m", "H", "h", "X", "x", "Y", "y", "W", "w", "N", "n", "Q", "q"]
@@ -84,6 +87,24 @@ def main(argv=None):
         import shutil
 
         shutil.rmtree(tmp, ignore_errors=True)
+    # ---- a process that loads one text only must produce what the processes that loaded all texts produced for it
+    iso = [1, 3] + rng.sample(range(4, len(texts)), k=min(2 if a.tier == "quick" else 8, max(0, len(texts) - 4)))
+    for i in iso:
+        tmp2 = tempfile.mkdtemp(prefix="gxc09i_")
+        try:
+            p2 = os.path.join(tmp2, "one.json")
+            json.dump([texts[i]], open(p2, "w"))
+            alone = run_worker(p2, 0)[0]
+        finally:
+            import shutil
+
+            shutil.rmtree(tmp2, ignore_errors=True)
+        rep.case(key=("isolated", texts[i]), nontrivial=True)
+        if alone != results[0][i]:
+            diff = sorted(k for k in set(alone) | set(results[0][i]) if alone.get(k) != results[0][i].get(k))
+            rep.violation(f"a process that loads only this text generates other output than a process that loaded {i} other texts before it, in {diff}",
+                          {"kind": "direct", "text": texts[i], "loaded_before": texts[:i], "hash_seeds": [0, 0],
+                           "alone": {k: alone.get(k) for k in diff}, "after_others": {k: results[0][i].get(k) for k in diff}})
     for i, text in enumerate(texts):
         outs = [r[i] for r in results]
         base = outs[0]
@@ -179,7 +200,8 @@ def main(argv=None):
         level="proof",
         rule="two fixed witnesses + random models with 1-5 intermediates (names include pairs differing only in case); each text is loaded "
              "and generated (numpy x2, jax, C, all layouts) in fresh processes with PYTHONHASHSEED in {0..4, random} (quick) / {0..39, 8 x random} "
-             "(thorough); non-trivial = at least three assignments; plus in-process histories on 8 models",
+             "(thorough); non-trivial = at least three assignments; plus processes that load a single text (among them a sibling model with the same names and "
+             "dependency sets but other formulas) compared with the processes that loaded all texts, and in-process histories on 8 models",
         trusted_base=["Coq 8.16.1 kernel", "extraction + ocaml/driver.ml", "CPython's set iteration order is modelled as an arbitrary permutation"],
         assumptions=["fresh subprocesses under different PYTHONHASHSEED sample the possible iteration orders; the theorem covers all of them for the mirror"],
     )
